@@ -73,6 +73,10 @@ class FilePart(Part):
         for a in ipdom.v6_window(self.seed, 3)[::7]:
             sp = refs.v6_spellings(a)
             toks.append(("6", a, sp[a % len(sp)]))
+        # IPv6 addresses spelled with an IPv4-style tail
+        for t in ("::ffff:11.22.33.44", "64:ff9b::198.51.100.77", "::172.20.9.5", "0:0:0:0:0:ffff:8.8.4.4",
+                  "2001:db8::1:138.7.6.5"):
+            toks.append(("6", int(ipaddress.IPv6Address(t)), t))
         return toks
 
     def run(self, cfg):
@@ -157,6 +161,8 @@ class FilePart(Part):
                         a = ipaddress.ip_address(
                             refs.v4_text(refs.v4_token_value(s[pos])) if "." in s[pos] and ":" not in s[pos]
                             else s[pos])
+                        if a.version == 6:
+                            a = ipaddress.IPv6Address(int(a))
                         keep = a.version == 4 and (refs.is_mask32(int(a)) or
                                                    refs.in_any(int(a), netobjs))
                         if keep:
